@@ -17,6 +17,8 @@ import WuffsVerif.Proof.Flate.Lookup4
 import WuffsVerif.Proof.Flate.TakeSpec
 import WuffsVerif.Proof.Flate.Canonical3
 import WuffsVerif.Proof.Flate.Total5
+import WuffsVerif.Proof.Flate.Single
+import WuffsVerif.Proof.Flate.Walk2
 
 namespace WuffsVerif.Props.C16
 open WuffsVerif.Flate WuffsVerif.Flate.Cut WuffsVerif.Flate.Spec
@@ -187,6 +189,29 @@ example : (match Cut.Cut true (encodeStored [] #[0x41, 0x42] ++ #[]) 6 with
     | .ok r => r.encodedLen == 6 && r.decodedLen == 1 && r.written == #[0x41] | .error _ => false) = true := by
   decide +kernel
 
+/-- **The fallback re-encoding (`cutSingleBlock`) is correct for EVERY valid DEFLATE stream** —
+stored, fixed and dynamic Huffman blocks alike: whenever it succeeds on a stream `s` that the spec
+decoder maps to `T`, the first `encodedLen` bytes of the modified buffer are a complete DEFLATE stream
+(one stored block of at most 65535 bytes, or the empty fixed block `03 00`) that decodes to exactly the
+first `decodedLen` bytes of `T`.  This is the path `cut` takes whenever the first block does not yield a
+better cut (`errInternalNoProgress` / `errInternalReplaceWithSingleBlock` on the first block).
+Rests on `Spec.blocks_cap`: a capped run of the decoder (`io.ReadFull` into a buffer) returns a prefix
+of the full output. -/
+theorem cutSingleBlock_prefix (s T : Bytes) (n0 : Nat) (hs : Spec.inflate s = some (T, n0))
+    (m : Nat) (enc : Bytes) (e dLen : Nat) (hm : m ≤ s.size)
+    (h : cutSingleBlock s m = .ok (enc, e, dLen)) :
+    Spec.inflate (enc.extract 0 e) = some (T.extract 0 dLen, e) ∧ dLen ≤ T.size :=
+  Cut.cutSingleBlock_good s T n0 hs m enc e dLen hm h
+
+/-- The decoder with an output cap (how `cutSingleBlock` and Go's `io.ReadFull` use it) yields a prefix
+of the uncapped output: everything if it reaches the end of the stream, at least `n` bytes otherwise. -/
+theorem inflate_cap_prefix (s : Bytes) (n lo fuel p : Nat) (out : Bytes) (pE : Nat) (outE : Bytes)
+    (h : Spec.blocks s none lo fuel p out = ⟨.done, pE, outE⟩) :
+    ∃ o rest, (Spec.blocks s (some n) lo fuel p out).out = out ++ o ∧ outE = out ++ o ++ rest ∧
+      (((Spec.blocks s (some n) lo fuel p out).status = .done ∧ rest = #[]) ∨
+       ((Spec.blocks s (some n) lo fuel p out).status = .capped ∧ n ≤ (out ++ o).size - lo)) :=
+  Spec.blocks_cap s n lo fuel p out pE outE h
+
 /-! ## 4. The bit reader and the Huffman fast path
 
 `b.Inv` (Proof/Flate/Basic.lean) is the content invariant of a `bitstream` cursor: the low `nBits`
@@ -313,5 +338,40 @@ example : ∃ h, Huffman.zero.construct #[1, 1] = .ok (h, 0, 0) := by
     simp only [Bool.and_eq_true, beq_iff_eq]
     intro hab
     exact ⟨h, by rw [hab.1, hab.2]⟩
+
+/-! ## 6. The cutter's walk over a Huffman block is the spec decoder's walk -/
+
+/-- **The cutter's Huffman decoder agrees with the RFC 1951 spec decoder**, for every code-length
+vector that `huffman.construct` (`hc`) and the spec's `mkHuff` (`hH`) both accept and every cursor:
+`decode` (8-bit table, 64-bit refill, `slowDecode`) returns the symbol that the spec's `decodeGo`
+returns and stops at the same bit (`CutOfSpec`: a `.sym v p1` of the spec is `.ok (v, b')` with
+`b'.pos = p1`, and the symbol's code length is the number of bits consumed); when the spec decoder
+fails, `decode` returns `mostNegativeInt32`. -/
+theorem decode_agrees_with_spec (h0 h : Huffman) (lens : Array Nat) (ecb ecn : Nat)
+    (hc : h0.construct lens = .ok (h, ecb, ecn)) (h0ok : h0.TableOK) (h0sz : h0.symbols.size = 288)
+    (hroom : offAt lens 16 ≤ 288) (hlen : lens.size ≤ 65536)
+    (H : Spec.Huff) (hH : Spec.mkHuff lens = some H) (b : Bitstream) (hb : b.Inv) :
+    CutOfSpec lens b (Spec.decodeGo H b.bytes b.pos H.maxLen 0 0 0 0) (h.decode b) :=
+  Cut.decode_agrees h lens (Cut.construct_good h0 h lens ecb ecn hc h0ok h0sz hroom hlen)
+    (Cut.construct_nz h0 h lens ecb ecn hc) H hH hroom b hb
+
+/-- **`doHuffman`'s symbol loop tracks the spec decoder** (`Tracks`): on a Huffman block that the spec
+decoder `Spec.huffBlock` decodes completely (from bit `c.bits.pos` with output `out` to bit `pE` with
+output `outE`), with the cutter's two `huffman`s built from the same code lengths as the spec's (`ctx`)
+and no `int32` overflow of `decodedLen` (`hD`):
+* when the loop returns `nil` it stands exactly at `pE`, inside the budget, and `decodedLen` has grown
+  by exactly the number of bytes the block decodes to;
+* when it breaks, the checkpoint it recorded is a token boundary `(q, o)` of the spec's walk
+  (`Reach`), `decodedLen` counts exactly the bytes decoded up to there, and the end-of-block code
+  still fits (`q + endCodeNBits ≤ 8 * maxEncodedLen`);
+* its only possible error is errInternalNoProgress. -/
+theorem huffman_walk_tracks_spec (hl hd : Spec.Huff) (minL minD lo : Nat) (ll dl : Array Nat)
+    (fuelS fuelC : Nat) (c : Cutter) (cp : Option (Nat × Nat)) (out : Bytes) (pE : Nat) (outE : Bytes)
+    (hc : c.OK) (ctx : BlockCtx c ll dl hl hd)
+    (hspec : Spec.huffBlock hl hd minL minD c.bits.bytes none lo fuelS c.bits.pos out = .next pE outE)
+    (hd0 : 0 ≤ c.decodedLen) (hD : c.decodedLen + (outE.size : Int) - (out.size : Int) < 2147483648)
+    (hf : 8 * c.bits.bytes.size + 1 ≤ fuelC + c.bits.pos) :
+    Tracks hl hd minL minD c cp c.decodedLen out pE outE (Cutter.huffLoop fuelC c cp c.decodedLen) :=
+  Cut.huffLoop_tracks hl hd minL minD lo ll dl fuelS fuelC c cp c.decodedLen out pE outE hc ctx rfl hspec hd0 hD hf
 
 end WuffsVerif.Props.C16
